@@ -1,6 +1,7 @@
 import ObiVerif.Model.Writer
 import ObiVerif.Model.WriterFmt
 import ObiVerif.Model.CsvRead
+import ObiVerif.Model.JsonRead
 import ObiVerif.Driver.Util
 /-! line protocol for C04 (see `harness/c04.go`):
 
@@ -8,6 +9,10 @@ import ObiVerif.Driver.Util
 with `<chunk> = <order>:<rec>;<rec>…` (arrival order), `<rec> = <id>,<seq>,<qual|~>,<info>,<ann>` (hex fields)
 and `<ann>` the prefix encoding of the annotation map: `s<hex>.` string, `i[n]<digits>.` int, `t`/`f` bool,
 `l<n>.` + n values, `m<n>.` + n × (`<hex key>.` value).
+Paired output: ` P <chunk>…` after the chunks = the batches of the mates (same batch numbers, arrival order of the second
+writer); the result then ends with ` out2=<hex of the second file>`.  JSON: the result carries ` dec=<hex>`, the compact
+canonical text (`Json.encVal`) of the value the reader model `JsonRead.decodeText` decodes from the whole file
+(`dec=error` when it rejects it) — the harness prints the same from what `encoding/json` decodes.
 
 Old form (still accepted): `<writer> w=<workers> <order>:<nseq>:<hex text> …` — chunk texts as data. -/
 namespace ObiVerif.Driver.C04
@@ -131,20 +136,30 @@ def showRows (rows : List (List B)) : String :=
 
 def runNew (w : String) (model : List String) : String :=
   let opts := model.takeWhile (· ≠ "C")
-  let chunks := (model.dropWhile (· ≠ "C")).drop 1
-  match parseCfg w opts, chunks.mapM parseBatch with
-  | some cfg, some arr =>
-    match writeFile cfg arr with
-    | none => "fatal"
-    | some out =>
+  let afterC := (model.dropWhile (· ≠ "C")).drop 1
+  let chunks := afterC.takeWhile (· ≠ "P")
+  let paired := afterC.contains "P"
+  let mates := (afterC.dropWhile (· ≠ "P")).drop 1
+  match parseCfg w opts, chunks.mapM parseBatch, mates.mapM parseBatch with
+  | some cfg, some arr, some arr2 =>
+    match writeFile cfg arr, (if paired then writeFile cfg arr2 else some []) with
+    | some out, some out2 =>
+      let tail := if paired then s!" out2={hex out2}" else ""
       if cfg.kind = Kind.csv then
         -- the reader model on the writer's output (compared with encoding/csv's Reader by the harness)
         let rd := match CsvRead.parse out with
           | some rows => showRows rows
           | none => "error"
-        s!"closes=1 out={hex out} rows={rd}"
-      else s!"closes=1 out={hex out}"
-  | _, _ => "bad-op"
+        s!"closes=1 out={hex out} rows={rd}{tail}"
+      else if cfg.kind = Kind.json then
+        -- the JSON reader model (white-space stripper + decoder of C02) on the whole file
+        let dc := match JsonRead.decodeText out with
+          | some v => hex (JsonRead.showJ v)
+          | none => "error"
+        s!"closes=1 out={hex out} dec={dc}{tail}"
+      else s!"closes=1 out={hex out}{tail}"
+    | _, _ => "fatal"
+  | _, _, _ => "bad-op"
 
 def run (line : String) : String :=
   match words line with
